@@ -145,6 +145,7 @@ def main():
     results = core.run_jobs(js)
     rep.add_results(results)
     core.triage(rep, results, info)
+    if not only: rep.validate_stage_translation()
     return rep.finish('proof', 'goto-cc | [goto-instrument --apply-loop-contracts] | cbmc ' + ' '.join(FLAGS) + ' (assume-pre / assert-post harness per function over the abstract queue view)', core.TRUSTED_BASE)
 
 if __name__ == '__main__':
